@@ -15,6 +15,16 @@
 
 #include <pistache/typeid.h>
 
+#ifdef PISTACHE_VERIF_HOOKS
+#include <pistache/verif_hooks.h>
+#endif
+#ifndef PISTACHE_VERIF_YIELD
+#define PISTACHE_VERIF_YIELD(tag) ((void)0)
+#endif
+#ifndef PISTACHE_VERIF_BEFORE_LOCK
+#define PISTACHE_VERIF_BEFORE_LOCK(mtx, tag) ((void)0)
+#endif
+
 #include <atomic>
 #include <condition_variable>
 #include <functional>
@@ -327,6 +337,7 @@ namespace Pistache::Async
 
             void resolve(const std::shared_ptr<Core>& core) override
             {
+                PISTACHE_VERIF_YIELD("continuable.resolve:before-count-test");
                 if (resolveCount_ >= 1)
                     return; // TODO is this the right thing?
                         // throw Error("Resolve must not be called more than once");
@@ -337,6 +348,7 @@ namespace Pistache::Async
 
             void reject(const std::shared_ptr<Core>& core) override
             {
+                PISTACHE_VERIF_YIELD("continuable.reject:before-count-test");
                 if (rejectCount_ >= 1)
                     return; // TODO is this the right thing?
                         // throw Error("Reject must not be called more than once");
@@ -348,6 +360,7 @@ namespace Pistache::Async
                 }
                 catch (const InternalRethrow& e)
                 {
+                    PISTACHE_VERIF_YIELD("continuable.reject:before-derived-store");
                     chain_->exc   = e.exc;
                     chain_->state = State::Rejected;
                     for (const auto& req : chain_->requests)
@@ -433,6 +446,7 @@ namespace Pistache::Async
                 void doReject(const std::shared_ptr<CoreT<T>>& core) override
                 {
                     reject_(core->exc);
+                    PISTACHE_VERIF_YIELD("continuation.doReject:before-derived-walk");
                     for (const auto& req : this->chain_->requests)
                     {
                         req->reject(this->chain_);
@@ -443,7 +457,9 @@ namespace Pistache::Async
                 void finishResolve(Ret&& ret) const
                 {
                     typedef typename std::decay<Ret>::type CleanRet;
+                    PISTACHE_VERIF_YIELD("continuation.finishResolve:before-derived-store");
                     this->chain_->template construct<CleanRet>(std::forward<Ret>(ret));
+                    PISTACHE_VERIF_YIELD("continuation.finishResolve:before-derived-walk");
                     for (const auto& req : this->chain_->requests)
                     {
                         req->resolve(this->chain_);
@@ -478,6 +494,7 @@ namespace Pistache::Async
                 void doReject(const std::shared_ptr<CoreT<void>>& core) override
                 {
                     reject_(core->exc);
+                    PISTACHE_VERIF_YIELD("continuation.doReject:before-derived-walk");
                     for (const auto& req : this->chain_->requests)
                     {
                         req->reject(this->chain_);
@@ -488,7 +505,9 @@ namespace Pistache::Async
                 void finishResolve(Ret&& ret) const
                 {
                     typedef typename std::remove_reference<Ret>::type CleanRet;
+                    PISTACHE_VERIF_YIELD("continuation.finishResolve:before-derived-store");
                     this->chain_->template construct<CleanRet>(std::forward<Ret>(ret));
+                    PISTACHE_VERIF_YIELD("continuation.finishResolve:before-derived-walk");
                     for (const auto& req : this->chain_->requests)
                     {
                         req->resolve(this->chain_);
@@ -609,7 +628,9 @@ namespace Pistache::Async
 
                     void operator()(const PromiseType& val)
                     {
+                        PISTACHE_VERIF_YIELD("chainer:before-derived-store");
                         chainCore->construct<PromiseType>(val);
+                        PISTACHE_VERIF_YIELD("chainer:before-derived-walk");
                         for (const auto& req : chainCore->requests)
                         {
                             req->resolve(chainCore);
@@ -689,7 +710,9 @@ namespace Pistache::Async
 
                     void operator()(const PromiseType& val)
                     {
+                        PISTACHE_VERIF_YIELD("chainer:before-derived-store");
                         chainCore->construct<PromiseType>(val);
+                        PISTACHE_VERIF_YIELD("chainer:before-derived-walk");
                         for (const auto& req : chainCore->requests)
                         {
                             req->resolve(chainCore);
@@ -837,6 +860,7 @@ namespace Pistache::Async
 
             typedef typename std::remove_reference<Arg>::type Type;
 
+            PISTACHE_VERIF_YIELD("resolver:before-state-check");
             if (core_->state != State::Pending)
                 throw Error("Attempt to resolve a fulfilled promise");
 
@@ -849,11 +873,14 @@ namespace Pistache::Async
                 throw Error("Attempt to resolve a void promise with arguments");
             }
 
+            PISTACHE_VERIF_BEFORE_LOCK(core_->mtx, "resolver:lock");
             std::unique_lock<std::mutex> guard(core_->mtx);
+            PISTACHE_VERIF_YIELD("resolver:before-store");
             core_->construct<Type>(std::forward<Arg>(arg));
 
             for (const auto& req : core_->requests)
             {
+                PISTACHE_VERIF_YIELD("resolver:walk-step");
                 req->resolve(core_);
             }
 
@@ -865,16 +892,20 @@ namespace Pistache::Async
             if (!core_)
                 return false;
 
+            PISTACHE_VERIF_YIELD("resolver:before-state-check");
             if (core_->state != State::Pending)
                 throw Error("Attempt to resolve a fulfilled promise");
 
             if (!core_->isVoid())
                 throw Error("Attempt ro resolve a non-void promise with no argument");
 
+            PISTACHE_VERIF_BEFORE_LOCK(core_->mtx, "resolver:lock");
             std::unique_lock<std::mutex> guard(core_->mtx);
+            PISTACHE_VERIF_YIELD("resolver:before-store");
             core_->state = State::Fulfilled;
             for (const auto& req : core_->requests)
             {
+                PISTACHE_VERIF_YIELD("resolver:walk-step");
                 req->resolve(core_);
             }
 
@@ -908,14 +939,18 @@ namespace Pistache::Async
             if (!core_)
                 return false;
 
+            PISTACHE_VERIF_YIELD("rejection:before-state-check");
             if (core_->state != State::Pending)
                 throw Error("Attempt to reject a fulfilled promise");
 
+            PISTACHE_VERIF_BEFORE_LOCK(core_->mtx, "rejection:lock");
             std::unique_lock<std::mutex> guard(core_->mtx);
+            PISTACHE_VERIF_YIELD("rejection:before-store");
             core_->exc   = std::make_exception_ptr(exc);
             core_->state = State::Rejected;
             for (const auto& req : core_->requests)
             {
+                PISTACHE_VERIF_YIELD("rejection:walk-step");
                 req->reject(core_);
             }
 
@@ -1118,7 +1153,9 @@ namespace Pistache::Async
                 Continuation;
             std::shared_ptr<Private::Request> req = std::make_shared<Continuation>(promise.core_, resolveFunc, rejectFunc);
 
+            PISTACHE_VERIF_BEFORE_LOCK(core_->mtx, "then:lock");
             std::unique_lock<std::mutex> guard(core_->mtx);
+            PISTACHE_VERIF_YIELD("then:before-state-test");
             if (isFulfilled())
             {
                 req->resolve(core_);
@@ -1128,7 +1165,9 @@ namespace Pistache::Async
                 req->reject(core_);
             }
 
+            PISTACHE_VERIF_YIELD("then:before-append");
             core_->requests.push_back(req);
+            PISTACHE_VERIF_YIELD("then:after-append");
 
             return promise;
         }
